@@ -196,10 +196,21 @@ impl Inp {
     }
 }
 
-#[derive(Debug, Clone, Default, PartialEq, Eq)]
+#[derive(Debug, Clone, Default)]
 pub struct InpInternPool {
     store: IndexSet<Inp>,
 }
+
+// An InpId is a position in the pool, so two pools are interchangeable only if they hold the same
+// inputs *in the same order* (IndexSet's own equality ignores the order).  DFA equality relies on
+// this: transitions are compared by InpId.
+impl PartialEq for InpInternPool {
+    fn eq(&self, other: &Self) -> bool {
+        self.store.len() == other.store.len() && self.store.iter().eq(other.store.iter())
+    }
+}
+
+impl Eq for InpInternPool {}
 
 impl std::hash::Hash for InpInternPool {
     fn hash<H: std::hash::Hasher>(&self, state: &mut H) {
